@@ -5,21 +5,37 @@ seeded schedules executed step by step on the real line.Line / mline.MultiLine /
 async.ProcChan with global quiescence, plus free-running stress; every recorded trace validated
 by Lanes_Trace (acceptance order, skips, lane closing and lane exit inferred by TLC)."""
 
+from vlib import MachineryError, log
+
+# a TLC tool race (two workers sorting the fields of one shared record object), nothing about neptune
+TLC_RACE = ("occurs multiple times in record", "Attempted to select nonexistent field")
+
+
+def mc(ctx, *a, **kw):
+    for attempt in range(3):
+        try:
+            return ctx.tlc_mc(*a, **kw)
+        except MachineryError as e:
+            if attempt < 2 and any(m in str(e) for m in TLC_RACE):
+                log("[tlc-mc] TLC record-normalisation race, running %s again" % a[2])
+                continue
+            raise
+
 
 def run(ctx):
     fam = "lanes"
-    ctx.tlc_mc(fam, "Lanes", "Lanes_MC.cfg", workers=4, coverage=ctx.thorough)
-    ctx.tlc_mc(fam, "Lanes", "Lanes_MC_pchan.cfg", workers=4, coverage=ctx.thorough)
-    ctx.tlc_mc(fam, "Lanes", "Lanes_MC_mline.cfg", workers=4, coverage=ctx.thorough)
-    ctx.tlc_mc(fam, "Lanes", "Lanes_MC_bug.cfg", workers=1, expect_violation="SlotInRange")
-    ctx.tlc_mc(fam, "Lanes", "Lanes_MC_bug2.cfg", workers=1, expect_violation="NoLateAccept")
-    ctx.tlc_mc(fam, "Lanes", "Lanes_MC_bug3.cfg", workers=1, expect_violation="NoOrphan")
-    ctx.tlc_mc(fam, "Lanes", "Lanes_MC_live.cfg", workers=4)
+    mc(ctx, fam, "Lanes", "Lanes_MC.cfg", workers=4, coverage=ctx.thorough)
+    mc(ctx, fam, "Lanes", "Lanes_MC_pchan.cfg", workers=4, coverage=ctx.thorough)
+    mc(ctx, fam, "Lanes", "Lanes_MC_mline.cfg", workers=4, coverage=ctx.thorough)
+    mc(ctx, fam, "Lanes", "Lanes_MC_bug.cfg", workers=1, expect_violation="SlotInRange")
+    mc(ctx, fam, "Lanes", "Lanes_MC_bug2.cfg", workers=1, expect_violation="NoLateAccept")
+    mc(ctx, fam, "Lanes", "Lanes_MC_bug3.cfg", workers=1, expect_violation="NoOrphan")
+    mc(ctx, fam, "Lanes", "Lanes_MC_live.cfg", workers=4)
     if ctx.thorough:
-        ctx.tlc_mc(fam, "Lanes", "Lanes_MC_live_big.cfg", workers=8, timeout=3000)
-        ctx.tlc_mc(fam, "Lanes", "Lanes_MC_big.cfg", workers=16, timeout=3000, heap="16g")
-        ctx.tlc_mc(fam, "Lanes", "Lanes_MC_big_mline.cfg", workers=16, timeout=3000, heap="16g")
-        ctx.tlc_mc(fam, "Lanes", "Lanes_MC_big4.cfg", workers=16, timeout=3000, heap="16g")
+        mc(ctx, fam, "Lanes", "Lanes_MC_live_big.cfg", workers=8, timeout=3000)
+        mc(ctx, fam, "Lanes", "Lanes_MC_big.cfg", workers=16, timeout=3000, heap="16g")
+        mc(ctx, fam, "Lanes", "Lanes_MC_big_mline.cfg", workers=16, timeout=3000, heap="16g")
+        mc(ctx, fam, "Lanes", "Lanes_MC_big4.cfg", workers=16, timeout=3000, heap="16g")
     pdir, plans = ctx.tlc_plans(fam, "Lanes_Gen", "Lanes_Gen.cfg", num=ctx.q(300, 5000), depth=44)
     binary = ctx.go_build("c14")
     ctx.harness(binary, ["-plans", pdir, "-out", ctx.path("steps.ndjson"), "-stress", ctx.path("stress.ndjson"),
